@@ -61,6 +61,38 @@ def gen_examples(rng, exotic=None):
         ex = (list(ex) if rng.random() < 0.3 else []) + [stem + tail * k for k in rng.sample(range(0, 7), rng.randint(2, 4))]
         if rng.random() < 0.5:
             ex += [rng.choice(['cd', 'ef', 'gh']) + d for d in ('', '12', '1234')]
+    if rng.random() < 0.07:
+        # short words over a-f, words with later letters, and digit strings of the same lengths: adding one kind to the
+        # working sample can re-class a fragment (hex digits) so that another kind falls out again
+        n = rng.choice([2, 2, 3])
+        ex = [''.join(rng.choice('abcdef') for _ in range(rng.choice([n, n, n + 1]))) for _ in range(rng.randint(3, 9))] + \
+             [''.join(rng.choice('uvwxyzrst') for _ in range(rng.choice([n, n, n + 1]))) for _ in range(rng.randint(1, 5))] + \
+             [''.join(rng.choice('0123456789') for _ in range(rng.choice([n, n, n + 1]))) for _ in range(rng.randint(1, 3))]
+        rng.shuffle(ex)
+    if rng.random() < 0.08 and ex:
+        # the same strings with blanks around them (one string under strip, several without)
+        base_ = [s_ for s_ in ex if isinstance(s_, str) and s_.strip()][:4]
+        ex = list(ex) + [rng.choice([' ', '  ', '\t']) * rng.randint(0, 1) + s_ + rng.choice([' ', '  ']) * rng.randint(0, 1)
+                         for s_ in base_ for _ in range(rng.randint(1, 3))]
+    if rng.random() < 0.08:
+        # a tail of one class, optional, after different runs in different examples (with variableLengthFrags: several
+        # fragments with minimum 0 in one expression), of one, two or more characters
+        k = rng.choice([1, 2, 2, 3, 4])
+        word = lambda: ''.join(rng.choice('ABCDXYZW' if k > 2 else 'abcdxyzw') for _ in range(2))
+        tail = (lambda: '0' * k) if rng.random() < 0.3 else (lambda: ''.join(rng.choice('0123456789') for _ in range(k)))
+        sep = rng.choice('-/:')
+        ex = (list(ex) if rng.random() < 0.2 else []) + [word() + tail() + sep + word(), word() + sep + word() + tail()]
+        if rng.random() < 0.4:
+            ex.append(word() + sep + word())
+    if rng.random() < 0.08:
+        # a fixed fragment shared at one end, alone in the shortest example and behind (or before) exactly one further
+        # fragment in the others
+        fixed = rng.choice(['.com', '/tmp', '-x', '.txt', ':80', '_id'])
+        words = [''.join(rng.choice('abcdefuv') for _ in range(n)) for n in rng.sample([1, 2, 3, 3, 4], rng.randint(2, 3))]
+        if rng.random() < 0.6:
+            ex = (list(ex) if rng.random() < 0.2 else []) + [fixed] + [w + fixed for w in words]
+        else:
+            ex = (list(ex) if rng.random() < 0.2 else []) + [fixed] + [fixed + w for w in words]
     return ex
 
 
